@@ -160,6 +160,10 @@ func Response(w *world.World, raws []json.RawMessage) ([]interface{}, error) {
 		{Name: "lvl10", Levels: map[string]uint{"gzip": 10, "br": 10}}})
 	w.AddHandler("lvl10", server.ServerOption{Cache: "resp", Locations: []string{"loc"}, Compress: "lvl10"})
 	w.AddHandler("fast", server.ServerOption{Cache: "resp", Locations: []string{"loc"}, Compress: "fast"})
+	w.AddHandlersFromConfig([]config.ServerConfig{
+		{Addr: ":7001", Cache: "resp", Locations: []string{"loc"}, CompressContentTypeFilter: "json|png"},
+		{Addr: ":7002", Cache: "resp", Locations: []string{"loc"}},
+	}, map[string]string{":7001": "cfgjson", ":7002": "cfgdefault"})
 	var opsMu sync.Mutex
 	var ops []compOp
 	compress.VerifInstall(func(enc string, level int) {
@@ -229,6 +233,14 @@ func Response(w *world.World, raws []json.RawMessage) ([]interface{}, error) {
 		o := map[string]interface{}{
 			"case": p.raw, "i": p.i, "ce": ce, "bodyOk": bodyOk, "lenOk": lenOk, "status": r.Status, "headersOk": headersOk, "latin1Ok": latin1Ok,
 			"label": r.Label, "storeOps": storeOps, "serveOps": serveOps, "bodyLen": len(r.Body), "origLen": len(c.body),
+			"ceAgain": ce,
+		}
+		if c.Path == "hit" || c.Path == "restore" {
+			// a client without Accept-Encoding is served from the same entry, then the same client asks again
+			w.DoCase("", c.Setting, "GET", "h", p.uri, hdr(""), c)
+			r2 := w.DoCase("", c.Setting, "GET", "h", p.uri, hdr(c.Accept), c)
+			o["ceAgain"] = r2.Header.Get("Content-Encoding")
+			take()
 		}
 		if derr != nil {
 			o["decodeErr"] = derr.Error()
